@@ -1343,3 +1343,50 @@ Proof.
   - intros name id I. apply parts_from_spec in I as [j [_ N]]. eapply nth_error_In; eauto.
   - generalize 0. clear ND. induction files as [|x r IH]; intro k; simpl; [reflexivity|]. f_equal. apply IH.
 Qed.
+
+(* ================= type-directed dumping ================= *)
+Section FannInd.
+  Variable P : fann -> Prop.
+  Hypothesis Hany : P FAny.
+  Hypothesis Hleaf : P FLeaf.
+  Hypothesis Hup : P FUpload.
+  Hypothesis Hopt : forall a, P a -> P (FOpt a).
+  Hypothesis Hlist : forall a, P a -> P (FList a).
+  Hypothesis Hmodel : forall fs, Forall (fun q => P (snd q)) fs -> P (FModel fs).
+  Fixpoint fann_ind2 (a : fann) : P a :=
+    match a with
+    | FAny => Hany | FLeaf => Hleaf | FUpload => Hup
+    | FOpt a' => Hopt a' (fann_ind2 a')
+    | FList a' => Hlist a' (fann_ind2 a')
+    | FModel fs =>
+        Hmodel fs ((fix go (l : list (string * fann)) : Forall (fun q => P (snd q)) l :=
+                      match l with
+                      | [] => Forall_nil _
+                      | x :: r => Forall_cons _ (fann_ind2 (snd x)) (go r)
+                      end) fs)
+    end.
+End FannInd.
+
+Lemma dumpv_model fs : dumpv (VModel fs) = VDict (dump_fields_any fs).
+Proof. reflexivity. Qed.
+
+(* with the Upload class as it is (serializer = identity) dumping by declared types coincides with dumping
+   by runtime types, for every declared type and every value *)
+Lemma dumpt_agrees_gen ser : (forall id, ser id = VUpload id) -> forall a v, dumpt ser a v = dumpv v.
+Proof.
+  intros Hs a. induction a using fann_ind2; intro v; cbn [dumpt]; try reflexivity.
+  - destruct v; try reflexivity. apply Hs.
+  - destruct v as [j| | | | |]; try apply IHa. destruct j; try apply IHa. reflexivity.
+  - destruct v; try reflexivity. cbn [dumpv]. f_equal. apply map_ext. exact IHa.
+  - destruct v as [| | | | |ms]; try reflexivity. rewrite dumpv_model. f_equal.
+    revert ms. induction H as [|[n a] r Ha Hr IH]; intro ms; [reflexivity|].
+    destruct ms as [|[f x] rm]; [reflexivity|]. cbn [dump_fields_any]. simpl in Ha.
+    rewrite Ha, IH. reflexivity.
+Qed.
+
+Lemma dumpt_agrees a v : dumpt ser_upload a v = dumpv v.
+Proof. apply dumpt_agrees_gen. reflexivity. Qed.
+
+(* so an Upload below a field annotated Upload / Optional[...] / List[...] / a nested input is never lost *)
+Lemma dumpt_keeps_uploads a v p : map snd (uploads_at p (dumpt ser_upload a v)) = deep_ids v.
+Proof. rewrite dumpt_agrees. apply ids_dumpv. Qed.
